@@ -196,3 +196,19 @@ Check (C17_no_provider_twice_xor :
 Check (C17_default_refresh_before_expiry :
   V.gen.Consts.DEFAULT_PROVIDER_REFRESH_INTERVAL_SECS < V.gen.Consts.DEFAULT_PROVIDER_TTL_SECS /\
   V.gen.Consts.DEFAULT_MAX_PROVIDER_ADDRESSES <= V.gen.Consts.KAD_MAX_ADDRESSES).
+Check (C17_source_tables_covered :
+  V.gen.C17Tables.store_methods = model_store_methods /\
+  V.gen.C17Tables.store_call_sites = model_call_sites /\
+  V.gen.C17Tables.store_actions = [0] /\
+  V.gen.C17Tables.quorum_variants = [0; 1; 2] /\
+  V.gen.C17Tables.validation_modes = [0; 1] /\
+  V.gen.C17Tables.config_fields = [0; 1; 2; 3; 4; 5; 6] /\
+  V.gen.C17Tables.config_defaults = [(0, 0); (1, 1); (2, 2); (3, 3); (4, 4); (5, 5); (6, 6)] /\
+  V.gen.C17Tables.builder_setters = [(0, 0); (1, 1); (2, 2); (3, 3); (4, 4); (5, 5); (6, 6)] /\
+  V.gen.C17Tables.clock_reads = [1; 3]).
+Check (C17_local_registrations_outlive_provider_keys :
+  exists c i h,
+    1 <= max_per_key c /\ max_keys c = 1 /\ mono 0 h /\
+    length (pkeys (ts_store (tfinal c i h))) = 1%nat /\
+    length (locals (ts_store (tfinal c i h))) = 2%nat /\
+    length (ts_quorum (tfinal c i h)) = 2%nat).
